@@ -26,13 +26,25 @@ class LoggingStub:
     a sweep budget is enforced (this is how non-termination becomes observable)."""
     DEBUG, INFO = 10, 20
 
+    WARNING, ERROR, CRITICAL, NOTSET = 30, 40, 50, 0
+
     def __init__(self):
         self.budget = 10 ** 9
         self.sweeps = 0
+        self.level = self.INFO
+        self.root = self
 
-    def reset(self, budget):
+    def reset(self, budget, level=None):
         self.budget = budget
         self.sweeps = 0
+        self.level = self.INFO if level is None else level
+
+    def isEnabledFor(self, level):
+        return level >= self.level
+
+    def log(self, level, msg, *a):
+        if level == self.DEBUG:
+            self.debug(msg, *a)
 
     def debug(self, msg, *a):
         if type(msg) is str and msg.startswith("iteration "):
@@ -49,7 +61,7 @@ class LoggingStub:
         return self
 
     def getEffectiveLevel(self):
-        return self.INFO
+        return self.level
 
 
 _pipe = {}
@@ -102,10 +114,11 @@ def oracle_decimal(game, args):
 
 def solve(sp, desc, prune, budget=400):
     budget = desc.get("_budget", budget) if isinstance(desc, dict) else budget
+    level = desc.get("_log_level") if isinstance(desc, dict) else None
     desc = {k: v for k, v in desc.items() if not k.startswith("_")}
     """run the real pipeline on a fresh copy; returns ('ok', 8-tuple) | ('nosol', message)"""
     t = tad_pipe()
-    t.logging.reset(budget)
+    t.logging.reset(budget, level)
     sg = t.StochasticGame(prune_states=prune, **copy.deepcopy(desc))
     try:
         res = sg.solve()
@@ -181,7 +194,7 @@ def _stopping_instances(tier):
         inst.append(("unreach", [w]))
     for o in (0, 1, 2):
         inst.append(("orphans", [o]))
-    inst += [("final_to_dead", []), ("zero_alive", []), ("order_sum", []), ("zero_dead", []), ("zero_branch", []), ("decimals2", []), ("tiny_vs_dead", []), ("dead_branch_rewards", []), ("p1_final", [P1]), ("p1_final", [P2]), ("init_final", []), ("dup_actions", []), ("decimals", []), ("tie_small", []),
+    inst += [("p1_final", [P1, True]), ("final_to_dead", []), ("zero_alive", []), ("order_sum", []), ("zero_dead", []), ("zero_branch", []), ("decimals2", []), ("tiny_vs_dead", []), ("dead_branch_rewards", []), ("p1_final", [P1]), ("p1_final", [P2]), ("init_final", []), ("dup_actions", []), ("decimals", []), ("tie_small", []),
              ("all_live_orphan", []), ("p2_shared", ["a"]), ("p2_shared", ["b"])]
     for order in ([(0, 1, 2), (2, 1, 0), (1, 0, 2)] if tier == "quick" else list(itertools.permutations(range(3)))):
         inst.append(("big_rewards", [P2, list(order)]))
@@ -211,7 +224,9 @@ def _cost(game, args):
 
 # ------------------------------------------------------------------ C01 / C04 / C06: reachability side (native doubles)
 def _reach_jobs(tier, seed):
-    return [dict(game=g, args=a, _cost=1) for g, a in _stopping_instances(tier) + _reach_only_instances(tier)] + \
+    dbg = [dict(game=g, args=a, debug=True, _cost=1) for g, a in (("fig55", [0.5, 0.75]), ("p2choice", [[2, 1, 0], P1]), ("ties", ["tenths"]),
+                                                                 ("dead", [P1, ["A", "B"]]), ("dead", [PR, ["D", "A"]]))]
+    return dbg + [dict(game=g, args=a, _cost=1) for g, a in _stopping_instances(tier) + _reach_only_instances(tier)] + \
         [dict(game="slow_chain", args=[], _props=["C01"]), dict(game="fig55", args=[5e-7, 5e-7], _props=["C06"])]
 
 
@@ -229,13 +244,15 @@ def _check_shape(sp, g, res):
          desc="real solve(): reported probabilities vs the exact game values (finals 1, pathless 0, never above, within "
               "threshold*T below), identical with pruning on/off; reachability strategies = exact optimal action sets; "
               "'no solution' iff pruning and exact value of state 0 is 0; complete 8-tuple otherwise")
-def pipe_reach(sp, game, args):
+def pipe_reach(sp, game, args, debug=False):
     g = build(game, args)
     exact, T = oracle(game, args)
     Tf = float(T) if T is not None else 40.0
     fill = 1 if (g.stopping and game not in ("ec", "finals")) else 0   # player-only cycles / non-absorbing finals: keep rewards 0
     desc = dict(rewards=[fill if r == G.SYM else r for r in g.rewards], players=list(g.players),
                 transition_list=[list(x) for x in g.tl], final_states=list(g.finals))
+    if debug:
+        desc["_log_level"] = LoggingStub.DEBUG      # the tool run with -l d: results must not depend on the log level
     can = G.has_path(g.tl, g.finals)
     out = {}
     for prune in (True, False):
@@ -440,6 +457,7 @@ def _conc_jobs(tier, seed):
         for rev in (False, True):
             jobs.append(dict(game="corridor", args=[n, rev], _cost=5))
     jobs += [dict(game="huge_reward", args=[P1]), dict(game="huge_reward", args=[P2]), dict(game="cancel_mass", args=[])]
+    jobs += [dict(game=g, args=a, debug=True) for g, a in (("fig55", [0.5, 0.75]), ("p2choice", [[2, 1, 0], P1]), ("lex", []), ("big_rewards", [P2, [0, 1, 2]]))]
     return jobs
 
 
@@ -450,10 +468,12 @@ def _conc_jobs(tier, seed):
                 "expected total reward of the reference-conditioned game in Fractions, probability literals read as decimals",
          desc="CONCRETE differential (not a solver verdict): real solve() natively; reported rewards within 4e-5 of the exact values and "
               "final strategies = exactly the permitted reward-optimal actions wherever exact successor values are equal or > 1e-4 apart")
-def pipe_final_concrete(sp, game, args):
+def pipe_final_concrete(sp, game, args, debug=False):
     g = build(game, args)
     desc = dict(rewards=[1 if r == G.SYM else r for r in g.rewards], players=list(g.players),
                 transition_list=[list(x) for x in g.tl], final_states=list(g.finals))
+    if debug:
+        desc["_log_level"] = LoggingStub.DEBUG
     T = G.max_steps(g.players, g.tl)
     tol = max(TOL, 2 * THR * float(T) * max(1, max(desc["rewards"]))) if T is not None else TOL
     if game in ("slow_rew", "corridor"):
